@@ -172,14 +172,22 @@ func loadRequests(r *vh.Rand, stream string, n int, limit int) []loadReq {
 	// vals stream: a few kinds per load case, so that several in-flight requests share each route
 	var valSet []valKind
 	if stream == "vals" {
-		var ks []valKind
+		var ks, bks []valKind
 		for _, k := range valKinds() {
 			if k.Known == "" && !k.NoLoad {
-				ks = append(ks, k)
+				if k.Boot {
+					bks = append(bks, k)
+				} else {
+					ks = append(ks, k)
+				}
 			}
 		}
 		for m := r.Range(1, 4); len(valSet) < m; {
-			valSet = append(valSet, vh.Pick(r, ks))
+			if len(bks) > 0 && r.Chance(30) { // boot catalogue (round 7): values that exist before any request
+				valSet = append(valSet, vh.Pick(r, bks))
+			} else {
+				valSet = append(valSet, vh.Pick(r, ks))
+			}
 		}
 	}
 	var depthSet []depthKind
